@@ -35,8 +35,14 @@ def check_len_published(ctx, rule):
         for n in pubs:
             if isinstance(n.ast, ast.Assign) and isinstance(n.ast.value, ast.Name):
                 counters.add(n.ast.value.id)
+        # an iterator that finds itself overtaken by an invalidation (C10.STALE) must NOT publish: the branch edges on which
+        # the generation is known to be stale are not exits that owe a publication
+        stale = Generation(ctx, rule, prog.cls("rrule.rrulebase", rule)).stale_edges(f)
+        stale_ids = set((b.id, l) for b, l in stale)
         # one obligation per predecessor edge of the normal exit
         for p, lab in cfg.exit.pred:
+            if (p.id, lab) in stale_ids:
+                continue
             total_exits += 1
             # is there a path (entry|yield) -> p that avoids every publication node?  (p itself may be one)
             if p in pubs:
@@ -45,7 +51,7 @@ def check_len_published(ctx, rule):
                 ok = True
                 detail = ""
                 for s in [cfg.entry] + yields:
-                    path = cfg.path_avoiding(s, [p], avoid_nodes=pubs)
+                    path = cfg.path_avoiding(s, [p], avoid_nodes=pubs, avoid_edges=stale)
                     if path or s is p:
                         ok = False
                         detail = "path without `self._len = ...`: %s" % (
@@ -689,3 +695,187 @@ def statements_mentioning(names, within=None):
                 best = (size, span)
         return best[1] if best else []
     return pick
+
+
+# ------------------------------------------------------------------------------------------------ generation tokens
+class Generation(object):
+    """Which iterators are still *current* after `_invalidate_cache()` ran.
+
+    `_invalidate_cache` gives some attributes a fresh value on every call (a counter that is incremented, a new
+    `object()`; with caching enabled also the new cache list and the new shared generator).  A generator that captured such
+    an attribute in a local before its first `yield` can later ask whether it is still the current one by comparing the
+    local with the attribute.  This class finds the tokens, the captures and the comparisons in a function and answers
+    `is_current(node)` (a must-hold fact says the generation is current) and `stale_edges()` (branch edges on which it is
+    known not to be)."""
+
+    def __init__(self, ctx, rule, base):
+        self.ctx = ctx
+        inval = ctx.prog.method(base.qualname, "_invalidate_cache", rule)
+        cfg = ctx.cfg(inval)
+        self.inval = inval
+        self.always, self.cached = {}, {}
+        cand = {}
+        for n in cfg.live_nodes():
+            if n.kind != "stmt":
+                continue
+            a = n.ast
+            if isinstance(a, ast.AugAssign) and isinstance(a.op, ast.Add) and isinstance(a.value, ast.Constant) and isinstance(a.value.value, int) and a.value.value > 0 \
+                    and isinstance(a.target, ast.Attribute) and src(a.target.value) == "self":
+                cand.setdefault(a.target.attr, []).append((n, "counter"))
+            if isinstance(a, ast.Assign) and len(a.targets) == 1 and isinstance(a.targets[0], ast.Attribute) and src(a.targets[0].value) == "self":
+                v = a.value
+                if isinstance(v, ast.Call) and src(v.func) == "object" and not v.args:
+                    cand.setdefault(a.targets[0].attr, []).append((n, "fresh object"))
+                elif isinstance(v, (ast.List, ast.Dict)) and not (v.elts if isinstance(v, ast.List) else v.keys):
+                    cand.setdefault(a.targets[0].attr, []).append((n, "fresh container"))
+        for attr, nodes in cand.items():
+            ns = [n for n, _ in nodes]
+            if cfg.path_avoiding(cfg.entry, [cfg.exit], avoid_nodes=ns) is None:
+                self.always[attr] = nodes[0][1]
+            else:
+                self.cached[attr] = nodes[0][1]
+
+    def tokens_for(self, f, cache_only=False):
+        t = dict(self.always)
+        if cache_only:
+            t.update(self.cached)
+        return t
+
+    def analyse(self, f, cache_only=False):
+        """(captures {local: attr}, compare texts) for function f"""
+        ctx = self.ctx
+        cfg = ctx.cfg(f)
+        tokens = self.tokens_for(f, cache_only)
+        yields = [n for n in cfg.live_nodes() if has_yield(n)]
+        after_yield = set(n.id for n in cfg.reach(yields)) if yields else set()
+        caps = {}
+        ndefs = {}
+        for n in cfg.live_nodes():
+            if n.kind == "stmt" and isinstance(n.ast, ast.Assign):
+                for t in n.ast.targets:
+                    if isinstance(t, ast.Name):
+                        ndefs.setdefault(t.id, []).append(n)
+        for name, ds in ndefs.items():
+            if len(ds) == 1 and len(ds[0].ast.targets) == 1 and isinstance(ds[0].ast.value, ast.Attribute) and src(ds[0].ast.value.value) == "self" \
+                    and ds[0].ast.value.attr in tokens and ds[0].id not in after_yield:
+                # no other binding of the local anywhere (loop targets, with ... as, augmented assignment)
+                others = [x for x in walk_local(f.node) if isinstance(x, ast.Name) and x.id == name and isinstance(x.ctx, (ast.Store, ast.Del))]
+                if len(others) == 1:
+                    caps[name] = ds[0].ast.value.attr
+        return cfg, caps, ndefs
+
+    def _compare(self, e, caps):
+        """+1 if expression e says 'current', -1 if it says 'stale', 0 otherwise"""
+        neg = 1
+        while isinstance(e, ast.UnaryOp) and isinstance(e.op, ast.Not):
+            neg = -neg
+            e = e.operand
+        if isinstance(e, ast.Compare) and len(e.ops) == 1 and isinstance(e.ops[0], (ast.Eq, ast.Is, ast.NotEq, ast.IsNot)):
+            a, b = e.left, e.comparators[0]
+            for x, y in ((a, b), (b, a)):
+                if isinstance(x, ast.Name) and x.id in caps and isinstance(y, ast.Attribute) and src(y.value) == "self" and y.attr == caps[x.id]:
+                    return neg * (1 if isinstance(e.ops[0], (ast.Eq, ast.Is)) else -1)
+        return 0
+
+    def verdict_of(self, f, text, truth, cache_only=False):
+        cfg, caps, ndefs = self.analyse(f, cache_only)
+        try:
+            e = ast.parse(text, mode="eval").body
+        except SyntaxError:
+            return 0, None
+        v = self._compare(e, caps)
+        if v:
+            return (v if truth else -v), None
+        neg = 1
+        while isinstance(e, ast.UnaryOp) and isinstance(e.op, ast.Not):
+            neg = -neg
+            e = e.operand
+        if isinstance(e, ast.Name) and len(ndefs.get(e.id, [])) == 1:
+            d = ndefs[e.id][0]
+            v = self._compare(d.ast.value, caps)
+            if v:
+                return (neg * v if truth else -neg * v), d
+        return 0, None
+
+    def is_current(self, f, node, cache_only=False):
+        """some must-hold fact at `node` says this iterator's generation is the current one, and no `yield` lies
+        between the comparison and the node (another thread of control could invalidate in between)"""
+        cfg = self.ctx.cfg(f)
+        facts = self.ctx.facts(f)
+        yields = [n for n in cfg.live_nodes() if has_yield(n)]
+        for text, tv in facts.at(node):
+            v, d = self.verdict_of(f, text, tv, cache_only)
+            if v != 1:
+                continue
+            # where the comparison was evaluated: the defining node of the boolean, else the branch nodes testing it
+            points = [d] if d is not None else [b for b in cfg.live_nodes() if b.kind == "branch" and text.replace(" ", "") in src(b.ast).replace(" ", "")]
+            if not points:
+                continue
+            ok = True
+            for y in yields:
+                if cfg.path_avoiding(y, [node], avoid_nodes=points, include_start=False) is not None and any(y in cfg.reach([p]) for p in points):
+                    ok = False
+            if ok:
+                return True
+        return False
+
+    def stale_edges(self, f, cache_only=False):
+        cfg = self.ctx.cfg(f)
+        out = []
+        for b in cfg.live_nodes():
+            if b.kind != "branch":
+                continue
+            v, _ = self.verdict_of(f, src(b.ast), True, cache_only)
+            if v == 1:
+                out.append((b, "false"))
+            elif v == -1:
+                out.append((b, "true"))
+        return out
+
+
+def check_stale_publication(ctx, rule):
+    """C10.STALE - see props/c10.py"""
+    prog = ctx.prog
+    base = prog.cls("rrule.rrulebase", rule)
+    gen = Generation(ctx, rule, base)
+    ctx.ob(rule, gen.inval, "every invalidation leaves a trace that an iterator started earlier can see (a counter incremented / a fresh object stored on every path)",
+           bool(gen.always), construct="_invalidate_cache: generation token",
+           detail="" if gen.always else "no attribute gets a fresh value on every path through _invalidate_cache (with caching enabled: %s): an iterator that was started before a member "
+           "was added cannot tell, and publishes its stale length / completeness" % (sorted(gen.cached) or "none"),
+           analysis="CFG must-pass-through over the stores of _invalidate_cache")
+    # classes whose instances can be invalidated after construction
+    mutable = []
+    for c in [base] + prog.subclasses(base):
+        for name, f in c.methods.items():
+            if name in ("__init__", "_invalidate_cache"):
+                continue
+            if any(d.endswith("_invalidates_cache") for d in f.decorators) or any(
+                    isinstance(x, ast.Call) and src(x.func) == "self._invalidate_cache" for x in walk_local(f.node)):
+                if c not in mutable:
+                    mutable.append(c)
+    ctx.floor(rule, len(mutable), 1, "classes with cache-invalidating mutators")
+    SHARED = ("_len", "_cache_complete", "_cache_gen")
+    n_w = 0
+    scope = [base] + [c for c in mutable if c is not base]
+    for c in scope:
+        for name, f in sorted(c.methods.items()):
+            if name in ("__init__", "_invalidate_cache"):
+                continue
+            cfg = ctx.cfg(f)
+            # _iter_cached and friends run only with caching enabled: the cache list / shared generator are tokens too
+            cache_only = any(isinstance(x, ast.Attribute) and x.attr == "_cache_lock" for x in walk_local(f.node))
+            for n in cfg.live_nodes():
+                if n.kind != "stmt" or not isinstance(n.ast, (ast.Assign, ast.AugAssign)):
+                    continue
+                tg = n.ast.targets if isinstance(n.ast, ast.Assign) else [n.ast.target]
+                hit = [t.attr for t in tg if isinstance(t, ast.Attribute) and src(t.value) == "self" and t.attr in SHARED]
+                for a in hit:
+                    n_w += 1
+                    ok = gen.is_current(f, n, cache_only)
+                    ctx.ob(rule, f, "per-generation state (%s) is published only by an iterator that is still current: a member added meanwhile must be reflected in "
+                           "every later iteration and query" % a, ok, construct="%s: store to self.%s" % (name, a),
+                           detail="" if ok else "`%s` is not guarded by a comparison of a token captured before the first yield with its current value; after "
+                           "it=iter(s); next(it); s.rdate(d); list(it) the set reports the old length / an empty complete cache" % stmt_text(n),
+                           analysis="generation tokens of _invalidate_cache + must-hold branch facts + no yield between test and store")
+    ctx.floor(rule, n_w, 3, "stores to shared per-generation state in iterators of invalidatable classes")
+    return gen
